@@ -152,10 +152,16 @@ GROUPS = {
              "intro emb s v mergeFn w hm he\n  unfold gRecord\n"
              "  rcases ho : w.mergeOut with nv | e\n"
              "  · cases hc : w.completed <;> cases hg : get s (w.tyOf (emb v)) <;>\n"
-             "      (try (rename_i cur; cases ht : (emb cur).truthy)) <;> metrics_eval <;> (try simp_all)\n"
+             "      first\n"
+             "      | (intro hn; rename_i cur; have hcn := hn cur; cases hcv : emb cur <;>\n"
+             "          first | exact absurd hcv hcn | (metrics_eval <;> try simp_all))\n"
+             "      | (metrics_eval <;> try simp_all)\n"
              "  · obtain ⟨c, n, rfl⟩ := he e ho\n"
              "    cases hc : w.completed <;> cases hg : get s (w.tyOf (emb v)) <;>\n"
-             "      (try (rename_i cur; cases ht : (emb cur).truthy)) <;> metrics_eval <;> (try simp_all)"),
+             "      first\n"
+             "      | (intro hn; rename_i cur; have hcn := hn cur; cases hcv : emb cur <;>\n"
+             "          first | exact absurd hcv hcn | (metrics_eval <;> try simp_all))\n"
+             "      | (metrics_eval <;> try simp_all)"),
             ("ctx_record_refines", ["gCtxRecord"], "CtxRecordRefines gCtxRecord",
              "intro metric mergeFn w hr hl he\n  unfold gCtxRecord\n"
              "  cases hv : w.var <;> cases ho : w.recordOut\n"
